@@ -40,6 +40,14 @@ def obligations(ctx, tier):
                     out += core.g_row(K, PROP, inh(A, name), arith.reps(A, "Ts", shift_expect(A, d, form, cls, K.debug)))
                 out += core.g_row(K, PROP, tr(A, OPS + d.capitalize(), ["u32"], d),
                                   arith.reps(A, "Ts", shift_expect(A, d, "plain", cls, K.debug)))
+            for d in ("shl", "shr"):
+                def un(W, env, d=d, A=A):
+                    a, s_ = env[0].v, env[1].v
+                    w = W.bits(A)
+                    if s_ >= w:
+                        return ("any",)
+                    return ("val", W.wrap(A, (pat(W, A, a) << s_) if d == "shl" else (a >> s_)))
+                out += core.g_row(K, PROP, inh(A, "unchecked_" + d), arith.reps(A, "Ts", un))
             for d in ("rotate_left", "rotate_right"):
                 out += core.g_row(K, PROP, inh(A, d), arith.reps(A, "Ts", rot_expect(A, d)))
     return out
